@@ -54,13 +54,13 @@ SPECS["C09"] = {
 SPECS["C12"] = {
     "level": "model_checking",
     "groups": [dict(LIBGO, entries=[
-        {"name": "VerifC12_BufferLimit", "quick": {"params": [1, 2, 3], "bound": 3}, "thorough": {"params": [1, 2, 3, 4], "bound": 5, "procs": 4}, "expect_reach": ["end", "accepted", "rejected"]},
+        {"name": "VerifC12_BufferLimit", "quick": {"params": [1, 2, 3], "bound": 2}, "thorough": {"params": [1, 2, 3, 4], "bound": 5, "procs": 4}, "expect_reach": ["end", "accepted", "rejected"]},
         {"name": "VerifC12_PrepareMessage", "quick": {"params": [0, 1, 2], "bound": 3}, "thorough": {"params": [0, 1, 2], "bound": 12}, "expect_reach": ["end", "fits", "too-large"]},
         {"name": "VerifC12_SendReply", "quick": {"params": [0, 1, 2], "bound": 3}, "thorough": {"params": [0, 1, 2], "bound": 12}, "expect_reach": ["end", "fits", "too-large"]},
     ])],
     "level_text": "Bounded symbolic model checking of the real limit enforcement: (a) TMemoryOutputBuffer driven through thrift.TRichTransport (Write, WriteString, WriteByte) with an arbitrary limit 0..40 and up to 3 (4) writes of arbitrary length: a write is rejected iff it would exceed the limit, with REQUEST_TOO_LARGE, buffer reset, prefix exact; (b) FStandardClient.prepareMessage with the real TBinaryProtocol and a message whose large string is first/middle/last, limit around the exact framed size (computed independently): fails iff over, and the next in-limit message succeeds; (c) FBaseProcessorFunction.SendReply with an oversize result produces exactly one RESPONSE_TOO_LARGE exception which FStandardClient.processReply maps to transport error 101, in-limit replies arrive intact. Outside: the per-transport publish/request checks of NATS/STOMP/HTTP, other runtimes.",
     "level_note": "Trusted: go/ssa, gose interpreter, z3; thrift's TBinaryProtocol and bytes.Buffer are executed from their real SSA. Stubs: fmt, logrus, context (engine model), sync.",
-    "bounds": {"quick": "limit 0..40 symbolic, <= 3 writes of 0..3 bytes; string sizes within 3 of the boundary", "thorough": "<= 4 writes of 0..5 bytes; string sizes within 12 of the boundary"},
+    "bounds": {"quick": "limit 0..40 symbolic, <= 3 writes of 0..2 bytes; string sizes within 3 of the boundary", "thorough": "<= 4 writes of 0..5 bytes; string sizes within 12 of the boundary"},
     "assumptions": ["(c): the limit admits the RESPONSE_TOO_LARGE reply itself (>= 160 bytes)"],
 }
 
@@ -166,6 +166,21 @@ SPECS["C20"] = {
     "level_note": "Trusted: go/ssa, gose interpreter and scheduler model, z3. " + NATS_NOTE + SCHED_NOTE,
     "bounds": {"quick": "r <= 2 requests before Stop, delay bound 2", "thorough": "r <= 3"},
     "assumptions": ["nats.go Drain/Flush/Barrier contract as modelled", "worker count >= 1"],
+}
+
+SPECS["C14"] = {
+    "level": "model_checking",
+    "groups": [dict(LIBGO, entries=[
+        {"name": "VerifC14_ProcessorReplies", "quick": {"params": [0, 1, 2, 3, 4], "bound": 0, "procs": 5}, "thorough": {"params": [0, 1, 2, 3, 4], "bound": 1, "procs": 5, "flags": ["-par", "2"]},
+         "expect_reach": ["end"]},
+        {"name": "VerifC14_SimpleServerLoop", "native": False, "quick": {"params": [0, 1, 2, 3, 4], "flags": ["-preempt", "1"], "procs": 5}, "thorough": {"params": [0, 1, 2, 3, 4], "flags": ["-preempt", "2"], "procs": 5},
+         "expect_reach": ["end"]},
+        {"name": "VerifC14_ConcurrentReplies", "native": False, "quick": {"params": [0, 1, 4], "flags": ["-preempt", "1"], "procs": 3}, "thorough": {"params": [0, 1, 2, 3, 4], "flags": ["-preempt", "2", "-par", "2"], "procs": 5}},
+    ])],
+    "level_text": "Bounded symbolic execution of the real server reply path (FBaseProcessor.Process, FBaseProcessorFunction.SendReply/SendError/sendError/trapError, Method.Invoke through the reflect boundary, FSimpleServer.accept with TFramedTransport) with processor functions written exactly in the shape the generator emits (two-way 'ping' with a declared exception, oneway 'fire') and the real TBinaryProtocol: for every request kind (known method, unknown method name of arbitrary bytes, arguments truncated at 1..6 bytes from the end, wrong-typed argument field, oneway) x handler outcome (value, declared exception, undeclared error, TApplicationException with any type id 0..200) the output is exactly one well-formed frame (judged by an independent reference reader) carrying the request's op id and correlation id and the right REPLY / EXCEPTION kind (UNKNOWN_METHOD, PROTOCOL_ERROR, INTERNAL_ERROR, the handler's own type), nothing for a successful oneway; the handler runs exactly once with the sent argument; a following request on the same processor / the same connection loop is answered correctly; with two requests processed concurrently on a shared output protocol every write and flush happens under the write mutex (lock-discipline monitor). Outside: the generated processor code itself (hand-written equivalent here), HTTP/NATS server plumbing (C05/C20), compact/JSON protocols.",
+    "level_note": "Trusted: go/ssa, gose interpreter and scheduler model, z3; reflect is an engine boundary (ValueOf/Call/Interface/MethodByName implemented by the engine). " + SCHED_NOTE,
+    "bounds": {"quick": "argument strings 0 bytes + fixed, 2 requests in a row, delay bound 1", "thorough": "argument strings 0..1 symbolic bytes, delay bound 2"},
+    "assumptions": [],
 }
 
 OVERLAYS = {}
